@@ -8,15 +8,19 @@ import Gen.C10
 Vocabulary (`Model/Queue.lean`): a history is a `List Op` (submit / next / restart / a crash before
 or after the single durable write of a submit or a next / the bare-queue operations) run from the
 freshly created queue; `run key cfg ops` yields the final state `st` (memory list + key-ordered
-datastore), the batches accepted so far `acc`, the batches handed out so far `dlv` (both in order)
-and the answers `outs`.  `key` is the datastore key function; theorems that hold for every key
+datastore), the batches accepted so far `acc`, the batches **handed out = returned to the caller** so
+far `dlv`, the batches removed from the queue so far `rem` (pop + durable `Delete`), the batches `lost`
+(removed by a `Next` that died after its durable `Delete` and before its return: neither on disk nor
+with the caller; `rem` = `dlv` + `lost`), all in order, and the answers `outs`.  `key` is the datastore key function; theorems that hold for every key
 function are stated for every `key`, the counter-witnesses use `realKey` (the real SHA-256 of the
 real `Batch.Hash` encoding – the function the driver runs against the real code on every check).
 
 Full statement of the property:  for every history  `dlv ++ st.mem = acc`  (everything accepted is
 handed out exactly once, in acceptance order, nothing else ever), refused submissions change
 nothing, the bound holds.  The order/durability half is **false** of the current code once a restart
-is involved (`C10_durable_full_fails`, `C10_order_full_fails`); what is true is proved below.
+is involved (`C10_durable_full_fails`, `C10_order_full_fails`), and exactly-once is **false** at the crash
+point between the `Delete` of `Next` and its return (`C10_exactly_once_across_crash_full_fails`); what is
+true is proved below, with hypotheses that are shown to be necessary (`…_sharp`).  Concurrent callers: §6.
 -/
 
 namespace Spec.C10
@@ -36,6 +40,18 @@ theorem golden_value : valueOf gBatch = Gen.C10.goldenValue := by decide +kernel
 theorem golden_key01 : keyString [[1]] = Gen.C10.key01 := by decide +kernel
 theorem golden_key02 : keyString [[2]] = Gen.C10.key02 := by decide +kernel
 
+/-- The model's datastore is ordered by the numeric key `realKey` and the driver prints it as
+`renderKey (realKey b)` (64 hex digits); that string **is** `keyString b` = `/batches/` + hex of the
+hash bytes, for every batch – so the golden facts above are about the keys `step` works with. -/
+theorem keyString_eq_render (b : Batch) : keyString b = renderKey (realKey b) := keyString_eq_renderKey b
+
+theorem golden_key_rendered : renderKey (realKey gBatch) = Gen.C10.goldenKey := by
+  rw [← keyString_eq_render]; exact golden_key
+theorem golden_key01_rendered : renderKey (realKey [[1]]) = Gen.C10.key01 := by
+  rw [← keyString_eq_render]; exact golden_key01
+theorem golden_key02_rendered : renderKey (realKey [[2]]) = Gen.C10.key02 := by
+  rw [← keyString_eq_render]; exact golden_key02
+
 /-! ## 1. without restart the queue *is* the abstract FIFO -/
 
 /-- Refinement: on histories without restart/crash the answers and the memory list are those of the
@@ -50,8 +66,10 @@ theorem C10_refines_fifo (key : Batch → Nat) (cfg : Cfg) (ops : List Op) (hp :
 of contents included. -/
 theorem C10_fifo_exactly_once_no_restart (key : Batch → Nat) (cfg : Cfg) (ops : List Op)
     (hp : ∀ op ∈ ops, op.plain = true) :
-    (run key cfg ops).dlv ++ (run key cfg ops).st.mem = (run key cfg ops).acc :=
-  fifo_plain key cfg ops hp {} rfl
+    (run key cfg ops).dlv ++ (run key cfg ops).st.mem = (run key cfg ops).acc := by
+  have hl := lost_nil_of_no_crash key cfg ops (fun op ho => plain_not_crash (hp op ho))
+  rw [dlv_eq_rem (Gh_run key cfg ops) hl]
+  exact fifo_plain key cfg ops hp {} rfl
 
 def cfg2 : Cfg := { id := [7], max := 2 }
 def a1 : Batch := [[1]]
@@ -145,11 +163,22 @@ theorem C10_disk_subset_undelivered (key : Batch → Nat) (cfg : Cfg) (ops : Lis
 /-- At most once, for every history (restarts, crashes at every write boundary, duplicates): no
 batch is handed out or pending more often than it was accepted.  In particular a batch that was
 handed out never reappears, and nothing that was refused is ever handed out. -/
-theorem C10_at_most_once (key : Batch → Nat) (cfg : Cfg) (ops : List Op) (x : Batch) :
-    ((run key cfg ops).dlv ++ (run key cfg ops).st.mem).count x ≤ (run key cfg ops).acc.count x := by
+theorem C10_at_most_once_accounting (key : Batch → Nat) (cfg : Cfg) (ops : List Op) (x : Batch) :
+    ((run key cfg ops).dlv ++ (run key cfg ops).lost ++ (run key cfg ops).st.mem).count x ≤
+      (run key cfg ops).acc.count x := by
   have h := run_induction key cfg (fun r => J key cfg r.st ∧ M r)
     (fun r op h => ⟨J_step key h.1 op, M_step key h.1 h.2 op⟩) {} ⟨J_init key cfg, fun _ => by simp⟩ ops
-  exact h.2 x
+  have h2 : ((run key cfg ops).rem ++ (run key cfg ops).st.mem).count x ≤ (run key cfg ops).acc.count x := h.2 x
+  have h3 := (Gh_run key cfg ops).perm.count_eq x
+  simp only [count_append] at h2 h3 ⊢
+  omega
+
+/-- … in the property's words (handed out = returned to the caller). -/
+theorem C10_at_most_once (key : Batch → Nat) (cfg : Cfg) (ops : List Op) (x : Batch) :
+    ((run key cfg ops).dlv ++ (run key cfg ops).st.mem).count x ≤ (run key cfg ops).acc.count x := by
+  have := C10_at_most_once_accounting key cfg ops x
+  simp only [count_append] at this ⊢
+  omega
 
 /-- non-vacuity: the inequality is strict on the duplicate history (accepted twice, only one copy left),
 and the datastore entry that is left is a pending batch under its own key -/
@@ -220,34 +249,155 @@ theorem C10_reload_in_key_order (key : Batch → Nat) (cfg : Cfg) (ops : List Op
 example : (run realKey {} ([.submit [] a1, .submit [] a2, .submit [] a3] ++ [.restart])).st.mem = [a2, a1, a3] := by
   decide +kernel
 
-/-- PARTIAL (excludes the duplicate witness): if the keys of the accepted batches are pairwise
-distinct, then after every history – restarts and crashes before/after every durable write
-included – handed out ++ pending is a permutation of accepted (every accepted batch survives,
-exactly once; none reappears after having been handed out), and the datastore holds exactly the
-pending batches. -/
+/-! ### the sharp hypotheses
+
+`stepCore key cfg s op` is the state the process is in right after the effect of `op` and before it
+stops (for the operations that restart: the state whose durable part is reloaded).  The two hypotheses
+speak about the batches **pending at the same time**, at every position `n` of the history: -/
+
+/-- no two batches with the same datastore key are ever pending at the same time -/
+def PendingKeysDistinct (key : Batch → Nat) (cfg : Cfg) (ops : List Op) : Prop :=
+  ∀ n, (h : n < ops.length) → ((stepCore key cfg (run key cfg (ops.take n)).st ops[n]).mem.map key).Nodup
+
+/-- at every restart (restart / reload / crash) the pending batches are in ascending key order -/
+def PendingAscendingAtRestarts (key : Batch → Nat) (cfg : Cfg) (ops : List Op) : Prop :=
+  ∀ n, (h : n < ops.length) → ops[n].plain = false →
+    ((stepCore key cfg (run key cfg (ops.take n)).st ops[n]).mem.map key).Pairwise (· < ·)
+
+/-- no `Next` died between its durable `Delete` and its return on a batch -/
+def NoCrashBetweenDeleteAndReturn (key : Batch → Nat) (cfg : Cfg) (ops : List Op) : Prop :=
+  (run key cfg ops).lost = []
+
+instance (key : Batch → Nat) (cfg : Cfg) (ops : List Op) : Decidable (PendingKeysDistinct key cfg ops) := by
+  unfold PendingKeysDistinct; infer_instance
+instance (key : Batch → Nat) (cfg : Cfg) (ops : List Op) : Decidable (PendingAscendingAtRestarts key cfg ops) := by
+  unfold PendingAscendingAtRestarts; infer_instance
+instance (key : Batch → Nat) (cfg : Cfg) (ops : List Op) : Decidable (NoCrashBetweenDeleteAndReturn key cfg ops) := by
+  unfold NoCrashBetweenDeleteAndReturn; infer_instance
+
+/-- a syntactic sufficient condition: the history contains no `crashNext true` -/
+theorem noCrashWindow_of_ops (key : Batch → Nat) (cfg : Cfg) (ops : List Op)
+    (h : ∀ op ∈ ops, op.crashAfterDelete = false) : NoCrashBetweenDeleteAndReturn key cfg ops :=
+  lost_nil_of_no_crash key cfg ops h
+
+private theorem at_split {ops pre post : List Op} {op : Op} (he : ops = pre ++ op :: post) :
+    ∃ h : pre.length < ops.length, ops.take pre.length = pre ∧ ops[pre.length] = op := by
+  subst he
+  exact ⟨by simp, by simp, by simp⟩
+
+private theorem distinct_split {key : Batch → Nat} {cfg : Cfg} {ops : List Op} (hd : PendingKeysDistinct key cfg ops) :
+    ∀ pre op post, ops = pre ++ op :: post → ((stepCore key cfg (run key cfg pre).st op).mem.map key).Nodup := by
+  intro pre op post he
+  obtain ⟨h, h1, h2⟩ := at_split he
+  have := hd pre.length h
+  rwa [h1, h2] at this
+
+private theorem ascending_split {key : Batch → Nat} {cfg : Cfg} {ops : List Op} (ha : PendingAscendingAtRestarts key cfg ops) :
+    ∀ pre op post, ops = pre ++ op :: post → op.plain = false →
+      ((stepCore key cfg (run key cfg pre).st op).mem.map key).Pairwise (· < ·) := by
+  intro pre op post he hp
+  obtain ⟨h, h1, h2⟩ := at_split he
+  have := ha pre.length h (h2 ▸ hp)
+  rwa [h1, h2] at this
+
+/-- the accounting of the queue after a history: everything accepted has been removed from the queue
+or is still pending, exactly once, and the datastore holds exactly the pending batches (so that every
+crash from here loses nothing) -/
+def Accounted (key : Batch → Nat) (cfg : Cfg) (ops : List Op) : Prop :=
+  ((run key cfg ops).rem ++ (run key cfg ops).st.mem).Perm (run key cfg ops).acc ∧
+  ((run key cfg ops).st.disk.map (·.2)).Perm (run key cfg ops).st.mem
+
+/-- PARTIAL (excludes the duplicate witness), queue side: if no two batches with the same key are
+pending at the same time, then after every history – restarts and crashes before/after every durable
+write included – the accounting is right. -/
+theorem C10_accounted_partial (key : Batch → Nat) (cfg : Cfg) (ops : List Op)
+    (hd : PendingKeysDistinct key cfg ops) : Accounted key cfg ops :=
+  have k := K_run key cfg ops (distinct_split hd)
+  ⟨k.multiset, k.disk⟩
+
+/-- SHARP: the hypothesis is necessary – the accounting is right after every prefix of a history
+**iff** no two batches with the same key were ever pending at the same time. -/
+theorem C10_accounted_sharp (key : Batch → Nat) (cfg : Cfg) (ops : List Op) :
+    (∀ n, n ≤ ops.length → Accounted key cfg (ops.take n)) ↔ PendingKeysDistinct key cfg ops := by
+  constructor
+  · intro h n hn
+    have h0 := h n (Nat.le_of_lt hn)
+    have h1 := h (n + 1) hn
+    have ht : ops.take (n + 1) = ops.take n ++ [ops[n]] := take_succ_eq_append_getElem hn
+    rw [ht] at h1
+    unfold Accounted at h1
+    rw [run_snoc] at h1
+    exact nodup_necessary key (J_run key cfg _) _ h0.1 h1.1 h1.2
+  · intro hd n _
+    refine C10_accounted_partial key cfg _ (fun m hm => ?_)
+    have hm' : m < ops.length := by simp at hm; omega
+    have hlt : m < n := by simp at hm; omega
+    have := hd m hm'
+    have e1 : (ops.take n).take m = ops.take m := by rw [take_take]; congr 1; omega
+    have e2 : (ops.take n)[m] = ops[m] := by simp
+    rwa [e1, e2]
+
+/-- PARTIAL (excludes the duplicate witness and the crash window), in the property's words: if no two
+batches with the same key are pending at the same time and no `Next` died between its `Delete` and its
+return, then after every history handed out ++ pending is a permutation of accepted (every accepted
+batch survives, exactly once; none reappears after having been handed out), and the datastore holds
+exactly the pending batches. -/
 theorem C10_restart_partial (key : Batch → Nat) (cfg : Cfg) (ops : List Op)
-    (hn : ((run key cfg ops).acc.map key).Nodup) :
+    (hd : PendingKeysDistinct key cfg ops) (hc : NoCrashBetweenDeleteAndReturn key cfg ops) :
+    ((run key cfg ops).dlv ++ (run key cfg ops).st.mem).Perm (run key cfg ops).acc ∧
+    ((run key cfg ops).st.disk.map (·.2)).Perm (run key cfg ops).st.mem := by
+  have h := C10_accounted_partial key cfg ops hd
+  rw [dlv_eq_rem (Gh_run key cfg ops) hc]
+  exact h
+
+/-- the hypothesis used before (keys of *all* accepted batches pairwise distinct, over the whole
+history) implies the sharp one … -/
+theorem distinct_of_all_keys_distinct (key : Batch → Nat) (cfg : Cfg) (ops : List Op)
+    (hn : ((run key cfg ops).acc.map key).Nodup) : PendingKeysDistinct key cfg ops := by
+  have hk : ∀ n, n ≤ ops.length → Accounted key cfg (ops.take n) := by
+    intro n _
+    have hp : ((run key cfg (ops.take n)).acc.map key).Nodup := by
+      obtain ⟨t, ht⟩ := acc_prefix key cfg (run key cfg (ops.take n)) (ops.drop n)
+      have : runFrom key cfg (run key cfg (ops.take n)) (ops.drop n) = run key cfg ops := by
+        show runFrom key cfg (runFrom key cfg {} (ops.take n)) (ops.drop n) = runFrom key cfg {} ops
+        rw [← runFrom_append, take_append_drop]
+      rw [this] at ht
+      rw [ht] at hn
+      exact nodup_keys_prefix key _ t hn
+    have k := K_run_of_nodup key cfg _ hp
+    exact ⟨k.multiset, k.disk⟩
+  exact (C10_accounted_sharp key cfg ops).1 hk
+
+/-- … so the earlier form follows: distinct keys over the whole history. -/
+theorem C10_restart_partial_distinct_keys (key : Batch → Nat) (cfg : Cfg) (ops : List Op)
+    (hn : ((run key cfg ops).acc.map key).Nodup) (hc : NoCrashBetweenDeleteAndReturn key cfg ops) :
     ((run key cfg ops).dlv ++ (run key cfg ops).st.mem).Perm (run key cfg ops).acc ∧
     ((run key cfg ops).st.disk.map (·.2)).Perm (run key cfg ops).st.mem :=
-  ⟨(K_run key cfg ops hn).multiset, (K_run key cfg ops hn).disk⟩
+  C10_restart_partial key cfg ops (distinct_of_all_keys_distinct key cfg ops hn) hc
 
-/-- The hypothesis in the property's words: the contents are pairwise distinct and the hash does not
+/-- The same in the property's words: the contents are pairwise distinct and the hash does not
 collide on them. -/
 theorem C10_restart_partial' (key : Batch → Nat) (cfg : Cfg) (ops : List Op)
     (hd : (run key cfg ops).acc.Nodup)
-    (keyNoCollision : ∀ a ∈ (run key cfg ops).acc, ∀ b ∈ (run key cfg ops).acc, key a = key b → a = b) :
+    (keyNoCollision : ∀ a ∈ (run key cfg ops).acc, ∀ b ∈ (run key cfg ops).acc, key a = key b → a = b)
+    (hc : NoCrashBetweenDeleteAndReturn key cfg ops) :
     ((run key cfg ops).dlv ++ (run key cfg ops).st.mem).Perm (run key cfg ops).acc ∧
     ((run key cfg ops).st.disk.map (·.2)).Perm (run key cfg ops).st.mem := by
-  refine C10_restart_partial key cfg ops ?_
+  refine C10_restart_partial_distinct_keys key cfg ops ?_ hc
   rw [Nodup, pairwise_map]
   exact Pairwise.imp_of_mem (fun ha hb hne hk => hne (keyNoCollision _ ha _ hb hk)) hd
 
-/-- Under the same hypothesis nothing is both handed out and pending, nothing is handed out twice. -/
+/-- Under the sharp hypothesis no two pending batches are equal (nothing is pending twice); with
+distinct keys over the whole history nothing is both handed out and pending or handed out twice. -/
 theorem C10_no_reappearance_partial (key : Batch → Nat) (cfg : Cfg) (ops : List Op)
     (hn : ((run key cfg ops).acc.map key).Nodup) :
-    ((run key cfg ops).dlv ++ (run key cfg ops).st.mem).Nodup := by
-  have hp := (C10_restart_partial key cfg ops hn).1
-  have h2 : (((run key cfg ops).dlv ++ (run key cfg ops).st.mem).map key).Nodup := (hp.map key).nodup_iff.2 hn
+    ((run key cfg ops).dlv ++ (run key cfg ops).lost ++ (run key cfg ops).st.mem).Nodup := by
+  have hp := (C10_accounted_partial key cfg ops (distinct_of_all_keys_distinct key cfg ops hn)).1
+  have hg := (Gh_run key cfg ops).perm
+  have hp2 : ((run key cfg ops).dlv ++ (run key cfg ops).lost ++ (run key cfg ops).st.mem).Perm (run key cfg ops).acc :=
+    (hg.symm.append_right _).trans hp
+  have h2 : (((run key cfg ops).dlv ++ (run key cfg ops).lost ++ (run key cfg ops).st.mem).map key).Nodup :=
+    (hp2.map key).nodup_iff.2 hn
   rw [Nodup, pairwise_map] at h2
   exact h2.imp (fun hne heq => hne (congrArg key heq))
 
@@ -260,23 +410,204 @@ theorem C10_disk_eq_undelivered_fails :
   revert h1
   decide +kernel
 
-/-- non-vacuity of the partial theorems: distinct keys, restart and both kinds of crash, and the
-conclusion is about a non-empty multiset (order differs from arrival order!) -/
+/-- sharpness on the existing witness: the duplicate history violates `PendingKeysDistinct` (at position 1: two
+equal keys pending), not the crash-window hypothesis -/
 example :
-    let r := run realKey {} [.submit [] a1, .submit [] a2, .crashSubmit true [] a3, .crashNext false [], .next [], .restart]
-    (r.acc.map realKey).Nodup ∧ r.acc = [a1, a2, a3] ∧ r.dlv = [a2] ∧ r.st.mem = [a1, a3] := by decide +kernel
+    ¬ PendingKeysDistinct realKey {} [.submit [] a1, .submit [] a1, .restart] ∧
+    NoCrashBetweenDeleteAndReturn realKey {} [.submit [] a1, .submit [] a1, .restart] := by decide +kernel
 
-/-- PARTIAL (excludes the order witness): if the keys of the accepted batches are strictly ascending
-in acceptance order (then they are distinct, too), the full statement holds: after every history,
-restarts and crashes included, handed out ++ pending = accepted as sequences. -/
+/-- non-vacuity, and the case no earlier theorem covered: **accept a, hand a out, accept a again**,
+restart, both kinds of crash – the same contents twice in the history (the old hypothesis `Nodup` of all
+accepted keys is false) but never pending at the same time: nothing is lost -/
+example :
+    let ops : List Op := [.submit [] a1, .next [], .submit [] a1, .restart, .submit [] a2, .crashSubmit true [] a3,
+      .crashNext false [], .next [], .restart]
+    let r := run realKey {} ops
+    PendingKeysDistinct realKey {} ops ∧ NoCrashBetweenDeleteAndReturn realKey {} ops ∧ ¬ (r.acc.map realKey).Nodup ∧
+    r.acc = [a1, a1, a2, a3] ∧ r.dlv = [a1, a2] ∧ r.st.mem = [a1, a3] := by decide +kernel
+
+/-- PARTIAL (excludes the order witness), the *full* statement under the sharp hypotheses: if no two
+equal keys are pending at the same time, the pending batches are in ascending key order at every
+restart, and no `Next` died between `Delete` and return, then after every history – restarts and
+crashes included – handed out ++ pending = accepted as sequences. -/
 theorem C10_order_partial (key : Batch → Nat) (cfg : Cfg) (ops : List Op)
-    (hn : ((run key cfg ops).acc.map key).Pairwise (· < ·)) :
-    (run key cfg ops).dlv ++ (run key cfg ops).st.mem = (run key cfg ops).acc :=
-  (A_run key cfg ops hn).fifo
+    (hd : PendingKeysDistinct key cfg ops) (ha : PendingAscendingAtRestarts key cfg ops)
+    (hc : NoCrashBetweenDeleteAndReturn key cfg ops) :
+    (run key cfg ops).dlv ++ (run key cfg ops).st.mem = (run key cfg ops).acc := by
+  rw [dlv_eq_rem (Gh_run key cfg ops) hc]
+  exact (A_run key cfg ops (distinct_split hd) (ascending_split ha)).fifo
 
-/-- non-vacuity: the order witness's batches submitted in key order survive a restart in order -/
+/-- queue side, without the crash-window hypothesis: removed ++ pending = accepted as sequences -/
+theorem C10_order_removed_partial (key : Batch → Nat) (cfg : Cfg) (ops : List Op)
+    (hd : PendingKeysDistinct key cfg ops) (ha : PendingAscendingAtRestarts key cfg ops) :
+    (run key cfg ops).rem ++ (run key cfg ops).st.mem = (run key cfg ops).acc :=
+  (A_run key cfg ops (distinct_split hd) (ascending_split ha)).fifo
+
+/-- SHARP: "the datastore holds exactly the pending batches and removed ++ pending = accepted in
+order, after every prefix of the history" holds **iff** both hypotheses hold. -/
+theorem C10_order_sharp (key : Batch → Nat) (cfg : Cfg) (ops : List Op) :
+    (∀ n, n ≤ ops.length → Accounted key cfg (ops.take n) ∧
+      (run key cfg (ops.take n)).rem ++ (run key cfg (ops.take n)).st.mem = (run key cfg (ops.take n)).acc) ↔
+    (PendingKeysDistinct key cfg ops ∧ PendingAscendingAtRestarts key cfg ops) := by
+  constructor
+  · intro h
+    refine ⟨(C10_accounted_sharp key cfg ops).1 (fun n hn => (h n hn).1), fun n hn hp => ?_⟩
+    have h0 := (h n (Nat.le_of_lt hn)).2
+    have h1 := (h (n + 1) hn).2
+    have ht : ops.take (n + 1) = ops.take n ++ [ops[n]] := take_succ_eq_append_getElem hn
+    rw [ht, run_snoc] at h1
+    exact ascending_necessary key (J_run key cfg _) _ hp h0 h1
+  · intro ⟨hd, ha⟩ n hn
+    refine ⟨(C10_accounted_sharp key cfg ops).2 hd n hn, ?_⟩
+    refine C10_order_removed_partial key cfg _ (fun m hm => ?_) (fun m hm hp => ?_)
+    · have hm' : m < ops.length := by simp at hm; omega
+      have := hd m hm'
+      have e1 : (ops.take n).take m = ops.take m := by rw [take_take]; congr 1; simp at hm; omega
+      have e2 : (ops.take n)[m] = ops[m] := by simp
+      rwa [e1, e2]
+    · have hm' : m < ops.length := by simp at hm; omega
+      have e2 : (ops.take n)[m] = ops[m] := by simp
+      have := ha m hm' (e2 ▸ hp)
+      have e1 : (ops.take n).take m = ops.take m := by rw [take_take]; congr 1; simp at hm; omega
+      rwa [e1, e2]
+
+/-- the earlier form follows: keys of all accepted batches strictly ascending in acceptance order -/
+theorem C10_order_partial_ascending_keys (key : Batch → Nat) (cfg : Cfg) (ops : List Op)
+    (hn : ((run key cfg ops).acc.map key).Pairwise (· < ·)) (hc : NoCrashBetweenDeleteAndReturn key cfg ops) :
+    (run key cfg ops).dlv ++ (run key cfg ops).st.mem = (run key cfg ops).acc := by
+  rw [dlv_eq_rem (Gh_run key cfg ops) hc]
+  exact (A_run_of_ascending key cfg ops hn).fifo
+
+/-- sharpness on the existing witness: the order history violates `PendingAscendingAtRestarts` only -/
 example :
-    let r := run realKey {} [.submit [] a2, .submit [] a1, .restart, .next []]
-    (r.acc.map realKey).Pairwise (· < ·) ∧ r.acc = [a2, a1] ∧ r.dlv = [a2] ∧ r.st.mem = [a1] := by decide +kernel
+    PendingKeysDistinct realKey {} [.submit [] a1, .submit [] a2, .restart] ∧
+    ¬ PendingAscendingAtRestarts realKey {} [.submit [] a1, .submit [] a2, .restart] := by decide +kernel
+
+/-- non-vacuity, and more than the earlier theorem covered: the accepted keys are **not** ascending over
+the history (`a1` has the larger key and comes first), but `a1` has been handed out before the restart:
+what is pending at each restart is in key order, and the full FIFO statement holds -/
+example :
+    let ops : List Op := [.submit [] a1, .submit [] a2, .next [], .restart, .submit [] a1, .crashNext false [], .next []]
+    let r := run realKey {} ops
+    PendingKeysDistinct realKey {} ops ∧ PendingAscendingAtRestarts realKey {} ops ∧
+    NoCrashBetweenDeleteAndReturn realKey {} ops ∧ ¬ (r.acc.map realKey).Pairwise (· < ·) ∧
+    r.acc = [a1, a2, a1] ∧ r.dlv = [a1, a2] ∧ r.st.mem = [a1] := by decide +kernel
+
+/-! ## 5. the crash point between the `Delete` of `Next` and its return -/
+
+/-- Full statement at that crash point: even when neither of the two defects above is involved (no two
+equal keys pending at the same time, pending keys ascending at every restart), after every history
+every accepted batch has been handed out – **returned to the caller** – or is still pending. -/
+def C10_exactly_once_across_crash_full : Prop :=
+  ∀ (cfg : Cfg) (ops : List Op), PendingKeysDistinct realKey cfg ops → PendingAscendingAtRestarts realKey cfg ops →
+    ((run realKey cfg ops).dlv ++ (run realKey cfg ops).st.mem).Perm (run realKey cfg ops).acc
+
+/-- FALSE of the current code: `Next` deletes the write-ahead record before it returns
+(`queue.go`: `bq.db.Delete`, then `return &batch`).  A process that dies after the `Delete` became
+durable and before the caller has the batch (the block producer has stored nothing yet) has lost it:
+not on disk, not handed out (known finding
+`C10/durable/batch-lost-in-crash-after-delete-before-return`). -/
+theorem C10_exactly_once_across_crash_full_fails : ¬ C10_exactly_once_across_crash_full := by
+  intro h
+  have h1 := (h {} [.submit [] a1, .crashNext true []] (by decide +kernel) (by decide +kernel)).length_eq
+  revert h1
+  decide +kernel
+
+/-- the witness in full: one batch accepted, the process dies in `Next` after the `Delete`: nothing
+handed out, nothing pending, nothing in the datastore – the batch is `lost` -/
+example :
+    let r := run realKey {} [.submit [] a1, .crashNext true []]
+    r.acc = [a1] ∧ r.dlv = [] ∧ r.lost = [a1] ∧ r.rem = [a1] ∧ r.st.mem = [] ∧ r.st.disk = [] ∧
+    r.outs = [.ok, .batch a1] := by decide +kernel
+
+/-- the neighbouring crash point is fine: dying *before* the `Delete` is durable keeps the batch -/
+example :
+    let r := run realKey {} [.submit [] a1, .crashNext false [], .next []]
+    r.acc = [a1] ∧ r.dlv = [a1] ∧ r.lost = [] ∧ r.st.mem = [] := by decide +kernel
+
+/-- Exact accounting (needs only `PendingKeysDistinct`): every accepted batch is, exactly once, handed
+out, or lost in the window between `Delete` and return, or pending. -/
+theorem C10_accounting_with_lost_partial (key : Batch → Nat) (cfg : Cfg) (ops : List Op)
+    (hd : PendingKeysDistinct key cfg ops) :
+    ((run key cfg ops).dlv ++ (run key cfg ops).lost ++ (run key cfg ops).st.mem).Perm (run key cfg ops).acc :=
+  ((Gh_run key cfg ops).perm.symm.append_right _).trans (C10_accounted_partial key cfg ops hd).1
+
+/-- PARTIAL (excludes exactly that crash point), and sharp: under `PendingKeysDistinct`, handed out ++
+pending is a permutation of accepted **iff** no `Next` died between its `Delete` and its return. -/
+theorem C10_exactly_once_across_crash_partial (key : Batch → Nat) (cfg : Cfg) (ops : List Op)
+    (hd : PendingKeysDistinct key cfg ops) :
+    ((run key cfg ops).dlv ++ (run key cfg ops).st.mem).Perm (run key cfg ops).acc ↔
+      NoCrashBetweenDeleteAndReturn key cfg ops := by
+  constructor
+  · intro h
+    have h2 := (C10_accounting_with_lost_partial key cfg ops hd).length_eq
+    have h1 := h.length_eq
+    simp only [length_append] at h1 h2
+    exact length_eq_zero_iff.1 (by omega)
+  · exact fun hc => (C10_restart_partial key cfg ops hd hc).1
+
+/-- what is handed out is always a subsequence of what was removed, and removed = handed out + lost -/
+theorem C10_delivered_sub_removed (key : Batch → Nat) (cfg : Cfg) (ops : List Op) :
+    (run key cfg ops).dlv.Sublist (run key cfg ops).rem ∧
+    (run key cfg ops).rem.Perm ((run key cfg ops).dlv ++ (run key cfg ops).lost) :=
+  ⟨(Gh_run key cfg ops).sub, (Gh_run key cfg ops).perm⟩
+
+/-! ## 6. concurrent callers (the property's `schedules`)
+
+Regenerated fact (go/parser over the current source, `harness/streams/c10/facts.go`): every method of
+`BatchQueue` takes `bq.mu` as its first statement and releases it by `defer`, nobody else selects a field
+of the queue, and the `Sequencer` methods that reach the queue contain exactly one queue call, no loop,
+goroutine or function literal, and assign to no field of the sequencer (what they do outside the queue
+call reads the immutable chain id and the request only). -/
+theorem calls_are_atomic :
+    Gen.C10.queueMethods.all (·.2) = true ∧
+    (["AddBatch", "Next", "Load"].all fun m => Gen.C10.queueMethods.any (·.1 == m)) = true ∧
+    Gen.C10.queueFieldEscapes = 0 ∧
+    (Gen.C10.sequencerQueueCalls.all fun e => e.2.1 == 1 && e.2.2) = true ∧
+    (["SubmitBatchTxs", "GetNextBatch"].all fun m => Gen.C10.sequencerQueueCalls.any (·.1 == m)) = true := by
+  decide
+
+/-- Linearizability at the model level.  Given `calls_are_atomic`, a concurrent execution of clients
+running the programs `progs` (`Conc`: again and again some client with an outstanding call gets the mutex
+and performs its whole call) ends in `r` **iff** `r` is the result of the *sequential* history `sched` for
+some interleaving `sched` of the programs.  (Nearly definitional once every call is one atomic step – that
+is the point: the fact above carries the weight, and everything proved for every `List Op` applies.) -/
+theorem C10_concurrent_is_sequential (key : Batch → Nat) (cfg : Cfg) (progs : List (List Op)) (r : Run) :
+    Conc key cfg progs {} r ↔ ∃ sched, Interleaving progs sched ∧ r = run key cfg sched :=
+  ⟨interleaving_of_conc key, fun ⟨_, hs, hr⟩ => hr ▸ conc_of_interleaving key hs {}⟩
+
+/-- An interleaving is a permutation of all the clients' calls that respects every client's program order. -/
+theorem C10_interleaving_respects_programs (progs : List (List Op)) (sched : List Op) (h : Interleaving progs sched) :
+    sched.Perm progs.flatten ∧ ∀ p ∈ progs, p.Sublist sched :=
+  ⟨h.perm, h.sublist⟩
+
+/-- Hence: concurrent submitters and consumers, no restart – FIFO, exactly once, refined to the abstract
+queue along *some* interleaving of the calls, the bound respected. -/
+theorem C10_concurrent_fifo_exactly_once (key : Batch → Nat) (cfg : Cfg) (progs : List (List Op)) (r : Run)
+    (hc : Conc key cfg progs {} r) (hp : ∀ p ∈ progs, ∀ op ∈ p, op.plain = true) :
+    r.dlv ++ r.st.mem = r.acc ∧ (0 < cfg.max → r.st.mem.length ≤ cfg.max) ∧
+    ∃ sched, Interleaving progs sched ∧ r.st.mem = (arun cfg [] sched).1 ∧ r.outs = (arun cfg [] sched).2 := by
+  obtain ⟨sched, hs, rfl⟩ := (C10_concurrent_is_sequential key cfg progs r).1 hc
+  have hpl : ∀ op ∈ sched, op.plain = true := by
+    intro op ho
+    obtain ⟨p, hp1, hp2⟩ := mem_flatten.1 ((hs.perm.mem_iff).1 ho)
+    exact hp p hp1 op hp2
+  exact ⟨C10_fifo_exactly_once_no_restart key cfg sched hpl, fun hm => C10_bound key cfg sched hm,
+    sched, hs, C10_refines_fifo key cfg sched hpl⟩
+
+/-- … and with restarts and crashes among the concurrent calls: at most once, and the accounting under
+the sharp hypothesis on the schedule that happened. -/
+theorem C10_concurrent_at_most_once (key : Batch → Nat) (cfg : Cfg) (progs : List (List Op)) (r : Run)
+    (hc : Conc key cfg progs {} r) (x : Batch) : (r.dlv ++ r.st.mem).count x ≤ r.acc.count x := by
+  obtain ⟨sched, _, rfl⟩ := (C10_concurrent_is_sequential key cfg progs r).1 hc
+  exact C10_at_most_once key cfg sched x
+
+/-- non-vacuity: two writers (equal contents among them) and one reader; one concurrent execution -/
+example :
+    let progs : List (List Op) := [[.submit [] a1, .submit [] a2], [.submit [] a1], [.next [], .next []]]
+    ∃ r, Conc realKey {} progs {} r ∧ r.acc = [a1, a1, a2] ∧ r.dlv = [a1, a1] ∧ r.st.mem = [a2] := by
+  refine ⟨run realKey {} [.submit [] a1, .next [], .submit [] a1, .submit [] a2, .next []], ?_, by decide +kernel⟩
+  refine conc_of_interleaving realKey ?_ {}
+  exact .call 0 _ _ rfl (.call 2 _ _ rfl (.call 1 _ _ rfl (.call 0 _ _ rfl (.call 2 _ _ rfl (.done (by decide))))))
 
 end Spec.C10
